@@ -1,6 +1,6 @@
 (* Properties/C02.v — merging plain documents is a right-biased recursive mapping update.
    Only statements, each closed by `exact`, followed by Print Assumptions. *)
-From AY Require Import Model.Merge Spec.Update Proofs.MergePlain.
+From AY Require Import Model.Merge Spec.Update Proofs.MergePlain Proofs.MergeNotNew Proofs.AppendE2E Proofs.PlainPath.
 
 (* Full statement: for every sequence of tag-free mapping documents (any nesting, any keys, any number of stages,
    whatever the source-level safe marks / file names), the model of Builder.flatten returns a tree whose content is
@@ -33,6 +33,80 @@ Proof.
   exact (upd_dgo_untouched _ _ _ _ E Hk).
 Qed.
 Print Assumptions C02_untouched.
+
+(* ---- path by path (extension round 7).  [puk d]: no mapping of d holds a key twice (every YAML mapping; the loader rejects duplicates).
+   [pat d q]: the value d holds at the mapping path q.  [misses d q]: d leaves q at a mapping (some key on the way is absent from a mapping
+   of d; a scalar or list met on the way is not a miss).  [through d q]: d can be followed along q through mappings (it never holds a
+   list at a proper prefix of q - below a list the newer mapping addresses indices). ---- *)
+
+(* key by key, one level: untouched, added, or merged recursively - nothing else can happen to a key *)
+Theorem C02_pointwise : forall okv kv r k, NoDup (map fst kv) -> upd (PD okv) (PD kv) = Ok (PD r) ->
+  match aget k kv, aget k okv with
+  | None, o => aget k r = o
+  | Some v, None => aget k r = Some v
+  | Some v, Some ov => exists m, upd ov v = Ok m /\ aget k r = Some m
+  end.
+Proof. exact upd_pointwise. Qed.
+Print Assumptions C02_pointwise.
+
+(* key ORDER: the keys of the older mapping keep their positions, the new keys follow in the newer document's order *)
+Theorem C02_key_order : forall okv kv r, NoDup (map fst kv) -> upd (PD okv) (PD kv) = Ok (PD r) ->
+  map fst r = map fst okv ++ filter (fun k => negb (ahas k okv)) (map fst kv).
+Proof. exact upd_key_order. Qed.
+Print Assumptions C02_key_order.
+
+(* nothing not mentioned by the newer document changes - at any depth *)
+Theorem C02_untouched_at_any_depth : forall new, puk new -> forall old r q, upd old new = Ok r -> misses new q -> pat r q = pat old q.
+Proof. exact upd_deep_untouched. Qed.
+Print Assumptions C02_untouched_at_any_depth.
+
+(* mappings under a common path are merged recursively - at any depth the result holds the update of what the older document held
+   there by what the newer one holds there *)
+Theorem C02_merged_at_any_depth : forall new, puk new -> forall old r q c, upd old new = Ok r -> pat new q = Some c -> through old q ->
+  match pat old q with
+  | Some ov => exists m, upd ov c = Ok m /\ pat r q = Some m
+  | None => pat r q = Some c
+  end.
+Proof. exact upd_deep_hit. Qed.
+Print Assumptions C02_merged_at_any_depth.
+
+(* any other value (scalar or list) is replaced wholesale by the newer document's value - at any depth *)
+Theorem C02_replaced_wholesale_at_any_depth : forall new old r q a,
+  puk new -> upd old new = Ok r -> pat new q = Some a -> atom a -> through old q -> pat r q = Some a.
+Proof. exact upd_deep_replaced. Qed.
+Print Assumptions C02_replaced_wholesale_at_any_depth.
+
+(* whole histories, for the tree Builder.flatten builds: no key of ANY document is lost ... *)
+Theorem C02_history_no_key_lost : forall e d0 rest n, forallb (fun d => is_PD (d_data d)) (d0 :: rest) = true ->
+  flatten e (map load_plain (d0 :: rest)) = Ok n ->
+  exists rkv, erase n = PD rkv /\ forall d kv k, In d (d0 :: rest) -> d_data d = PD kv -> ahas k kv = true -> ahas k rkv = true.
+Proof. exact flatten_no_key_lost. Qed.
+Print Assumptions C02_history_no_key_lost.
+
+(* ... a path that every later document leaves at a mapping still holds what the first document held there ... *)
+Theorem C02_history_untouched : forall e d0 rest n q, forallb (fun d => is_PD (d_data d)) (d0 :: rest) = true ->
+  Forall (fun d => puk (d_data d)) rest -> Forall (fun d => misses (d_data d) q) rest ->
+  flatten e (map load_plain (d0 :: rest)) = Ok n -> pat (erase n) q = pat (d_data d0) q.
+Proof. exact flatten_untouched. Qed.
+Print Assumptions C02_history_untouched.
+
+(* ... and the last document that mentions a path with a scalar or a list decides it, whatever came before *)
+Theorem C02_history_last_value_decides : forall ds d0 d r r0 q a, Forall puk (d :: ds) -> Forall (fun d => misses d q) ds ->
+  upd_fold d0 (d :: ds) = Ok r -> upd d0 d = Ok r0 -> pat d q = Some a -> atom a -> through d0 q -> pat r q = Some a.
+Proof. exact upd_fold_last_atom. Qed.
+Print Assumptions C02_history_last_value_decides.
+
+(* non-vacuity of the path statements: a miss below a common key, a list replaced two levels down, key order *)
+Example C02_path_example :
+  let S n := PS (SInt n) in
+  let old := PD [(KS 1, PD [(KS 2, S 1); (KS 3, PL [S 7])]); (KS 4, S 4)] in
+  let new := PD [(KS 5, S 5); (KS 1, PD [(KS 3, PL []); (KS 6, S 6)])] in
+  puk new /\ misses new [KS 1; KS 2] /\ through old [KS 1; KS 3] /\ pat new [KS 1; KS 3] = Some (PL []) /\
+  upd old new = Ok (PD [(KS 1, PD [(KS 2, S 1); (KS 3, PL []); (KS 6, S 6)]); (KS 4, S 4); (KS 5, S 5)]).
+Proof.
+  cbn zeta. split; [|vm_compute; repeat split; exact I].
+  repeat (constructor; cbn [map fst snd In]; try (intros [E|E]; [discriminate E|]); try tauto).
+Qed.
 
 (* non-vacuity: a three-stage history with a type change and a mapping addressing a list index *)
 Example C02_example :
